@@ -44,7 +44,7 @@ struct Probe : public squids::SQuIDS {
   std::vector<Vec> h0;  // per node: H0 components at the node;   H0(x) = h0a + x*h0b
   Vec ha, hb;
   int d;
-  Probe(unsigned nx, unsigned dd, const Vec& a, const Vec& b) : squids::SQuIDS(nx, dd, 1, 0, 0.0), ha(a), hb(b), d(dd) {}
+  Probe(unsigned nx, unsigned dd, const Vec& a, const Vec& b, double ti) : squids::SQuIDS(nx, dd, 1, 0, ti), ha(a), hb(b), d(dd) {}
   Vec h0_at(double x) const { Vec v(ha.size()); for (size_t i = 0; i < v.size(); i++) v[i] = ha[i] + x * hb[i]; return v; }
   squids::SU_vector H0(double x, unsigned int) const override { return SU_vector(h0_at(x)); }
   void set_state(unsigned ix, const Vec& v) { for (size_t k = 0; k < v.size(); k++) state[ix].rho[0][k] = v[k]; }
@@ -217,14 +217,16 @@ void run_C11(vh::Ctx& c) {
       // ---- averaged expectation values of the solver class built on the same tables
       unsigned nx = 2 + r.pick(3);
       Vec hb = exact ? exact_H(r, d) : gen_H(r, d, r.pick(NH));
-      Probe P(nx, d, h, hb);
+      double tini = exact ? (double)r.range(-3, 3) : (r.coin(0.3) ? 0.0 : r.normal() * 3);  // the tables depend on t - t_ini, never on t alone
+      Probe P(nx, d, h, hb, tini);
       std::vector<double> xs(nx); double x0 = exact ? (double)r.range(0, 3) : r.uni(0.1, 2);
       for (unsigned i = 0; i < nx; i++) { xs[i] = x0; x0 += exact ? (double)r.range(1, 3) : r.uni(0.1, 2); }
       P.Set_xrange(xs);
       std::vector<Vec> st(nx);
       for (unsigned i = 0; i < nx; i++) { st[i] = gen_vec(r, d, DENSE); P.set_state(i, st[i]); }
       double tau = exact ? (double)r.range(-5, 5) : t;
-      P.set_time(tau);
+      P.set_time(tini + tau);
+      tau = P.Get_t() - P.Get_t_initial();
       Vec o = gen_vec(r, d, pick_cls(r), 20);
       SU_vector O = make(o);
       unsigned ix = r.pick(nx);
